@@ -144,7 +144,7 @@ func (d *Driver) keyInputs(entry string, ca *testsupport.CA, withCert bool) ([]i
 		}
 	}
 
-	for _, name := range []string{"rsa1024-a", "p224-a", "ed25519-a"} {
+	for _, name := range []string{"rsa1024-a", "p224-a", "ed25519-a", "rsa2560-a"} {
 		data := bytes.Clone(d.fix[name])
 
 		if withCert {
@@ -160,8 +160,8 @@ func (d *Driver) keyInputs(entry string, ca *testsupport.CA, withCert bool) ([]i
 	// rejected, a rejection must keep what was loaded before - including the published keys)
 	for _, v := range []struct {
 		id, key, certFor string
-		usage           x509.KeyUsage
-		from            time.Duration
+		usage            x509.KeyUsage
+		from             time.Duration
 	}{
 		{"cert-no-digital-signature", "p384-a", "p384-a", x509.KeyUsageKeyEncipherment, -time.Minute},
 		{"cert-expired", "p384-a", "p384-a", x509.KeyUsageDigitalSignature, -3 * time.Hour},
